@@ -132,6 +132,9 @@ def _poly_cases(draw, tier):
     c["cw"] = draw(st.booleans())
     c["queries"] = [[draw(st.integers(-18, 18)) / 2.0, draw(st.integers(-18, 18)) / 2.0] for _ in range(12)]
     c["points"] = [list(p) for p in draw(st.lists(st.tuples(st.integers(-8, 8), st.integers(-8, 8)), min_size=1, max_size=14))]
+    # the same integer grid, blown up: coordinates of size 2^27 with offsets of one unit (exact in integers, not in doubles)
+    c["big"] = draw(st.integers(0, 3)) == 0
+    c["jitter"] = [[draw(st.integers(-1, 1)), draw(st.integers(-1, 1))] for _ in range(14)]
     return c
 
 
@@ -181,6 +184,15 @@ def check_planar(case, ctx):
         v = linalg.is_left(a, b, c)
         e = ref.orient(a, b, c)
         ctx.check((v > 0) == (e > 0) and (v < 0) == (e < 0), "is_left", "is_left(%r, %r, %r) = %r, exact orientation %r" % (a, b, c, v, float(e)))
+    if case.get("big"):
+        K = 2 ** 27 + 3
+        bp = [[p[0] * K + j[0], p[1] * K + j[1]] for p, j in zip(pts, case["jitter"])]
+        ctx.label("integer-coordinates-of-size-2^27")
+        for i in range(len(bp) - 2):
+            a, b, c = bp[i], bp[i + 1], bp[i + 2]
+            v = linalg.is_left(a, b, c)
+            e = (b[0] - a[0]) * (c[1] - a[1]) - (c[0] - a[0]) * (b[1] - a[1])
+            ctx.check((v > 0) == (e > 0) and (v < 0) == (e < 0), "is_left", "is_left(%r, %r, %r) = %r, exact integer orientation %r" % (a, b, c, v, e))
     # convex hull
     hull = linalg.convex_hull([list(p) for p in pts])
     exact = ref.convex_hull_ccw(pts)
